@@ -25,15 +25,19 @@ CHECKS = {
    note=TRUST + "Spec/Published.lean is a hand transcription of the papers. Known finding N4: CaT tau_u deviates where the clip "
         "is active inside the domain (theorem CaT_tau_u_clip_active); sub-1e-6 ms^-1 clip artefacts of Na/K/CaL rates below "
         "-103 mV are within the stated tolerance."),
- "C14": dict(cat="proof", ref="DESIGN.md §4 C14",
-   technique="Lean 4 fixed-point theorems about the re-translated init_state/update_states kernels + implementation runs at kernel and Module level",
+ "C14": dict(cat="proof", ref="DESIGN.md §4 C14 + §B.8",
+   technique="Lean 4 fixed-point theorems about the re-translated init_state/update_states kernels, lifted to a model of Module.init_states (frame, idempotence, steady state per row) + table-by-table correspondence with the implementation",
    text="For HH, Na, K, CaL, Km, CaT (any name prefix): the generated init_state returns exactly the channel's state keys and any state "
         "holding these values is returned unchanged by the generated update_states at the same voltage/parameters for every dt>0 "
-        "(theorems over ℝ under the exact non-singularity conditions); the steady state is the unique fixed point. The "
-        "implementation is run on random voltages/parameters and on Modules with partial, renamed and duplicated insertions "
-        "(frame: only rows containing the channel are written, each from its own v and parameters).",
-   note=TRUST + "Module.init_states (pandas row selection) is checked on the implementation, not modelled in Lean. Known finding F4b: "
-        "NaN at the removable singularities."),
+        "(theorems over ℝ under the exact non-singularity conditions); the steady state is the unique fixed point. Module.init_states is "
+        "modelled (Model/InitStates.lean: snapshot taken once, channels in module order, only returned keys, only member rows) and proved: "
+        "rows without a channel, voltages and parameters are untouched (module_init_states_frame), a second call changes nothing for every "
+        "module made of built-in channels (module_init_states_idempotent), and in every row where an HH-type channel is inserted one "
+        "update_states returns exactly the values init_states wrote (module_init_states_HH_steady). The model, with the generated kernels "
+        "dispatched by name, is run next to the real init_states on random cells with partial / renamed / duplicated insertions, per-"
+        "compartment parameters, shared and distinct voltages, first and repeated calls, and every state column is compared.",
+   note=TRUST + "pandas row selection is restated in the model (tied by the table comparison). Known finding F4b: NaN at the removable "
+        "singularities."),
  "C17": dict(cat="proof", ref="DESIGN.md §4 C17",
    technique="Lean 4 theorems over ℝ on re-translated transforms (incl. constructor fields) + hand-modelled combinators; Float/jit correspondence",
    text="Sigmoid/Softplus/NegSoftplus/Affine: bounds for all real x, monotonicity (strict on the unclipped region), both round trips "
@@ -43,25 +47,28 @@ CHECKS = {
         "masks and pytrees and compared with the model and with the Spec predicate (bounds, monotone, conditioning-aware round trip).",
    note=TRUST + "Combinators are hand-modelled (tied by correspondence). Rounding is sampled. Known findings F11 (round trips saturate "
         "beyond the clip) and N6 (softplus inverse cancellation); N5 (NegSoftplus bound sign) was fixed."),
- "C01": dict(cat="proof", ref="DESIGN.md §4 C01",
-   technique="Lean 4: Hines elimination correctness + pivot positivity on arbitrary trees, uniqueness by a discrete maximum principle, kernel = physics identities; exact-rational correspondence and backward-error predicate",
-   text="Proved for every tree / finite node set / positive parameter set: the two-pass Hines elimination returns a solution whenever "
-        "pivots are non-zero and all pivots are positive for weakly dominant Z-matrices (so for every valid cable system); the cable "
-        "system has at most one solution; the re-translated conductance kernels equal cable physics with explicit unit factors; "
-        "Crank-Nicolson as implemented is the trapezoidal rule. On every run, for random compartments/branches/cells/networks and all "
-        "7 (solver, backend) pairs the implementation's voltages are converted to exact rationals and the Lean driver computes their "
-        "relative row residual against the physics Spec (<= 1e-9) and compares them with the exact rational solution of the "
-        "code-shaped model; refusals must be legitimate. The custom solver itself is modelled as the code is written "
-        "(Model.SolveJaxley: padded slots of JaxleySolveIndexer, level schedule, tridiax Thomas rows, branch-point steps): proved for "
-        "all inputs - the triangulation of a slot yields the Schur pivots of its path, identity padding rows are irrelevant, "
-        "triangulation + back substitution solves the slot's tridiagonal system, every branch-point step is a solution-set preserving "
-        "row operation; per case the model runs on the arrays, indexer and schedule CAPTURED from the real solver: Float model == "
-        "implementation's solves array, and in exact arithmetic flat model == abstract Hines recursion, schedule well-formed, result "
-        "satisfies every row of the captured system. A regression corpus (F1, N3, N7 morphologies, non-topological labelings, "
-        "networks of unequal depth) runs first in every tier.",
-   note=TRUST + "Not proved: floating-point rounding (measured as backward error); tridiax.stone and jax spsolve (exercised); the "
-        "composition of the solver steps over an arbitrary level schedule and the global equality 'assembled matrix = row-scaled "
-        "SpecSys' (both checked exactly, in rational arithmetic, on every generated case). Fixed: F1, N3, N7."),
+ "C01": dict(cat="proof", ref="DESIGN.md §4 C01 + §B.8",
+   technique="Lean 4: the whole custom solver (array assembly, level-scheduled triangulation / back substitution, read-back) proved to return the unique solution of the implicit-Euler cable system for every well-formed schedule and edge table; Hines correctness, maximum principle, kernel = physics identities; exact-rational correspondence on the arrays, schedules and edge tables captured from the real code",
+   text="Proved for all inputs (no bound on branches, levels, padding): (1) Model.SolveJaxley.solve - the code-shaped model of _triang_branched / "
+        "_backsub_branched with tridiax's Thomas rows - returns a solution of the system its ten input arrays denote, and the only one "
+        "(custom_solver_correct, custom_solver_unique), for every structurally well-formed indexer + level schedule (wfB, a decidable "
+        "predicate) and non-vanishing pivots; (2) for cable-like arrays (strictly dominant compartment rows, weighted Kirchhoff branch-point "
+        "rows) the pivot hypothesis is a theorem (custom_solver_pivots_of_dominant); (3) Model.AssembleJaxley.assembleJ - the array assembly of "
+        "step_voltage_implicit_with_jaxley_spsolve, statement by statement - produces arrays that denote the physical edge-list system "
+        "(jaxley_arrays_denote_physical_system, the matrix the jax.sparse backend builds) and are cable-like for dt>0, positive conductances "
+        "(jaxley_arrays_dominant); hence (4) jaxley_backend_exact: assembly + solve + read-back return THE solution of the implicit-Euler cable "
+        "system. Also: abstract Hines correctness and pivot positivity on arbitrary trees, uniqueness by a discrete maximum principle on any "
+        "finite node set, the re-translated conductance kernels equal cable physics with explicit unit factors, Crank-Nicolson as implemented is "
+        "the trapezoidal rule. Tie, on every run: the arrays, indexer, schedule and the keyword arguments of the assembly are CAPTURED from an "
+        "eager step of the real code; the driver evaluates the theorems' hypotheses on them (wf=, ewf=, piv=) and their conclusions in exact "
+        "rational arithmetic (sat=, phys=), compares the model's assembled arrays and solves array with the implementation's (<= 1e-12 / 1e-9), "
+        "and checks the implementation's voltages for all 7 (solver, backend) pairs against the physics Spec by exact backward error. A "
+        "regression corpus (F1, N3, N7, N15 morphologies, non-topological labelings, networks of unequal depth and of unbranched cells of "
+        "different size) runs first in every tier.",
+   note=TRUST + "Not proved: floating-point rounding (measured as backward error); tridiax.stone and jax spsolve (exercised, compared); that "
+        "Cell/Network._init_morph_* always produce well-formed tables (wfB / edgesWfB are evaluated on every captured case instead); forward Euler "
+        "and the sparse backend are covered by the correspondence with Model.Cable. Fixed: F1, N3, N7, N15 (forward Euler on networks of "
+        "unbranched cells of different size)."),
  "C02": dict(cat="proof", ref="DESIGN.md §4 C02",
    technique="Lean 4: charge balance, maximum/minimum principle, reciprocity for symmetric cable systems on any finite node set; predicates evaluated on implementation outputs",
    text="Theorems for every admissible symmetric system: total charge balance, no overshoot for every dt>0 (max/min principle incl. "
@@ -133,14 +140,16 @@ CHECKS = {
         "give identical arrays (node, channel, initial-state and edge keys), write_trainables stores the simulated arrays.",
    note=TRUST + "JAX scatter semantics (out-of-bounds dropped, rows in order) restated in the model. Simulation equality follows from array equality. F2 fixed."),
  "C08": dict(cat="proof", ref="DESIGN.md §4 C08",
-   technique="Lean 4 theorems on the time axis, record ordering, scatter_add, clamp writes and t_max padding + implementation runs against independent manual stepping",
+   technique="Lean 4 theorems on the time axis, record ordering, scatter_add, clamp writes and t_max padding + implementation runs against independent manual stepping and against the executable Lean model of a whole simulation",
    text="Theorems: the returned matrix has the initial state in column 0 and the state after k steps in column k, rows in first-call order "
         "(dedup keeps existing rows in place); sample k of an input is consumed by step k+1 only; several stimuli on one compartment "
         "add; a clamped voltage equals its clamp sample after the step because the write follows the solve (setAt_get for distinct "
         "indices); t_max pads stimuli with zeros / truncates; step_current has its amplitude exactly on [ws,we). On the implementation "
         "(cells and networks with 2-3 interleaved synapse types): every row equals the independently stepped trajectory of exactly the "
         "requested compartment/synapse, impulse timing, additivity, clamps of v / gates / synaptic states, t_max handling, short-clamp "
-        "refusal, data_stimulate/data_clamp equivalence.",
+        "refusal, data_stimulate/data_clamp equivalence; and the recorded traces of modules with scrambled stimuli and clamps of v, gates and "
+        "synaptic states equal those of the Lean model of a WHOLE simulation (Model/Sim.lean: Module.step with the generated channel and "
+        "synapse kernels, the cable solve, externals, clamps, recording gather) that is driven only by the module's tables.",
    note=TRUST + "I nA -> I*dt of charge is C01.stim_conversion + C02.charge_balance. Fixed: F5 (synaptic state indexing), N1."),
  "C09": dict(cat="proof", ref="DESIGN.md §4 C09",
    technique="Lean 4 theorems on the synaptic-term model (sum over incoming edges, locality, permutation invariance, exact secant) + closed-form one-step oracle on the implementation",
@@ -160,7 +169,9 @@ CHECKS = {
         "every accepted history (wf_reachable, induction over the operation list); deletions remove exactly their insertions and "
         "leave other entries untouched. Refinement: for random histories on irregular cells and networks the abstraction "
         "alpha(module) equals the model state after EVERY operation and rejections coincide; afterwards the invariant of the "
-        "property statement is evaluated on the real tables, integrate must run, and insert;delete must restore the tables.",
+        "property statement is evaluated on the real tables, integrate must run, insert;delete must restore the tables, and 'simulates its "
+        "tables' is decided by the executable Lean model of a whole simulation (Model/Sim.lean) that reads ONLY the tables the history left "
+        "behind (nodes, edges, recordings, externals, branch structure): its recordings must equal those of jx.integrate.",
    note=TRUST + "set_ncomp and init_states are not in the modelled alphabet (set_ncomp is C13, init_states C14). make_trainable groups are taken from "
         "the implementation (their construction is C10). Fixed: F10/N11 (delete_channel), N10 (delete_clamps on edges)."),
  "C13": dict(cat="proof", ref="DESIGN.md §4 C13",
